@@ -23,7 +23,17 @@ const JOINED_ALT: &str = "CREATE TABLE v(line = '^V (\\\\S+) (\\\\S+) (\\\\S+) (
 
 fn decoy(i: usize) -> String {
     let names = ["alpha", "beta", "gamma", "delta", "omega", "sigma", "zeta", "kappa"];
-    format!("CREATE TABLE {}(line = '{}=([0-9]+)', line[1] => v{} INT);", names[i % names.len()], names[i % names.len()], i)
+    // every other decoy uses column names that the queried / joined table uses too
+    let cols = if i % 2 == 1 { [["x", "y"], ["c0", "c2"], ["y", "c9"], ["c1", "x"]][(i / 2) % 4] } else { ["va", "vb"] };
+    format!(
+        "CREATE TABLE {}(line = '{}=([0-9]+) (\\\\S+)', line[1] => {}{} INT, line[2] => {}{} TEXT);",
+        names[i % names.len()],
+        names[i % names.len()],
+        cols[0],
+        if i % 2 == 1 { String::new() } else { i.to_string() },
+        cols[1],
+        if i % 2 == 1 { String::new() } else { i.to_string() }
+    )
 }
 
 fn gen_real(rng: &mut Rng, zero_heavy: bool) -> String {
@@ -48,7 +58,7 @@ impl Property for C18 {
     }
 
     fn rule(&self) -> &'static str {
-        "case = (definitions incl. up to 6 decoy tables before/after the queried one, statement [* over 10 columns / * over a join with clashing column names / GROUP BY with 6-8 aggregates and a HAVING over several more / COUNT(DISTINCT) and join keys over REAL values that are equal but not bit-identical (0.0, -0.0), TEXT, INT / an error-producing row], input given as 1-3 files (rare regime: 2-5 files of thousands of lines under ARRAY_AGG / STRING_AGG / REAL sums, whose value depends on arrival order), joined file with 3-6 partners per key, K hash-key blocks [8 quick, 64 thorough], repeat count). The same query runs once per key block on a fresh thread (getrandom seam), twice under the same block, repeated inside one thread, and for a fraction of cases once under real OS entropy; all outputs must be byte-identical. Non-trivial iff two of the key blocks give a different iteration order to a 16-entry probe HashMap built on the same kind of thread AND the input has >=2 lines; distinct by (case content hash, key-block set)."
+        "case = (definitions incl. up to 6 decoy tables before/after the queried one, statement [* over 10 columns / * over a join with clashing column names / GROUP BY with 6-8 aggregates and a HAVING over several more / COUNT(DISTINCT) and join keys over REAL values that are equal but not bit-identical (0.0, -0.0), TEXT, INT / an error-producing row], input given as 1-3 files (rare regime: 2-5 files of thousands of lines under ARRAY_AGG / STRING_AGG / REAL sums, whose value depends on arrival order), joined file with 3-6 partners per key, K hash-key blocks [8 quick, 64 thorough], repeat count). The same query runs once per key block on a fresh thread (getrandom seam), twice under the same block, repeated inside one thread, and for a fraction of cases once under real OS entropy; all outputs must be byte-identical; so must the run with only the queried and the joined table defined (half of the other tables reuse their column names) and, for joins, the run on an engine that has loaded its joined table once before. Non-trivial iff two of the key blocks give a different iteration order to a 16-entry probe HashMap built on the same kind of thread AND the input has >=2 lines; distinct by (case content hash, key-block set)."
     }
 
     fn assumptions(&self) -> Vec<String> {
@@ -372,6 +382,38 @@ impl Property for C18 {
                 return out;
             }
             out.probe("os_entropy_runs", 1);
+        }
+        if stmt.contains(" JOIN ") && kind != "huge_joined" {
+            // an engine that has loaded its joined table before (the constructor the Python wrapper uses) and loads it
+            // again when the executor starts: what was loaded earlier must not show
+            let mut b = make(Some(k0), 1);
+            b.preload_join = true;
+            let r = run(&mut out, "joined table loaded once before the run", &b, false);
+            if status_label(&r.status) != s0 || records(&r) != r0 {
+                out.violate(
+                    "c18.depends_on_process_history",
+                    format!("{}: on an engine that had loaded its joined table once before, the output is {} {} instead of {} {}", stmt, status_label(&r.status), show(&records(&r)), s0, show(&r0)),
+                    features.clone(),
+                );
+                return out;
+            }
+            out.probe("joined_table_loaded_twice", 1);
+        }
+        if kind != "name_lookup" && defs.matches("CREATE TABLE").count() > 2 {
+            // "irrespective of which other tables are defined": the same query with only its own tables defined
+            let core = format!("{} {}", WIDE, JOINED);
+            let mut b = make(Some(k0), 1);
+            b.defs = core;
+            let r = run(&mut out, "only the queried and the joined table defined", &b, false);
+            if status_label(&r.status) != s0 || records(&r) != r0 {
+                out.violate(
+                    "c18.depends_on_other_tables",
+                    format!("{}: with the other tables defined the output is {} {} but with only the queried and the joined table {} {}", stmt, s0, show(&r0), status_label(&r.status), show(&records(&r))),
+                    features.clone(),
+                );
+                return out;
+            }
+            out.probe("compared_with_no_other_tables_defined", 1);
         }
         if kind == "env" {
             // locale variables of the process are ambient state too
